@@ -5,7 +5,7 @@ from glom import glom, T, SKIP, STOP, Sum, Flatten, Merge, GlomError
 from glom.grouping import Group, First, Max, Min, Avg, Limit
 from glom.reduction import Count
 
-from vkit.common import start, reach, fail, known_open, concretize, OUT
+from vkit.common import start, reach, fail, known_open, concretize, OUT, run
 from vkit.ob import Ob
 import vkit.stubs  # noqa: F401
 
@@ -26,7 +26,7 @@ META = {
 }
 
 NKEY = 5
-NLEAF = 8
+NLEAF = 9
 
 
 THR = [0]          # current threshold (symbolic), read by the key functions below
@@ -73,8 +73,13 @@ def group_spec(kinds, leaf, wrap=None):
     return _SPEC_CACHE[ck]
 
 
+def _skip_small(t):
+    """value spec that drops some items (SKIP) and keeps others"""
+    return SKIP if t < THR[0] else t
+
+
 def leaf_spec(kind):
-    return [[T], First(), Max(), Min(), Avg(), Sum(), Count(), [T * 2]][kind]
+    return [[T], First(), Max(), Min(), Avg(), Sum(), Count(), [T * 2], [_skip_small]][kind]
 
 
 def leaf_ref(kind, items):
@@ -95,7 +100,9 @@ def leaf_ref(kind, items):
         return sum(items)
     if kind == 6:
         return len(items)
-    return [i * 2 for i in items]
+    if kind == 7:
+        return [i * 2 for i in items]
+    return [i for i in items if not i < THR[0]]
 
 
 def loop_ref(items, keyfns, leaf):
@@ -287,6 +294,32 @@ def group_nested(k0: int, leaf: int, items: List[int], thr: int) -> bool:
     return (got['n'] == (len(a) if a else None)) or fail(why='count', n=got['n'], a=a)
 
 
+def group_nested_agg(which: int, rows: List[int], thr: int) -> bool:
+    """a Group spec inside the sub-spec of an aggregator leaf of another Group"""
+    start()
+    rows = [concretize(x, 0, 2) for x in rows]
+    if any(x is OUT for x in rows):
+        return True
+    t = [[x, x + 1] if x else [x] for x in rows]                    # rows of length 1 or 2
+    ck = ('nested_agg', which)
+    if ck not in _SPEC_CACHE:
+        _SPEC_CACHE[ck] = [Group({len: Sum(Group(Sum()))}), Group({len: Sum(Group(Count()))}), Group({len: [Group(Max())]})][which]
+    spec = _SPEC_CACHE[ck]
+    exp = {}
+    for r in t:
+        k = len(r)
+        inner = [sum(r), len(r), max(r)][which]
+        if which == 2:
+            exp.setdefault(k, []).append(inner)
+        else:
+            exp[k] = exp.get(k, 0) + inner
+    got = run(lambda: glom(t, spec, glom_debug=True))
+    reach('nested_agg')
+    if not t:
+        return True
+    return (got.kind == 'ok' and _same(got.value, exp)) or fail(got=got, exp=exp, t=t)
+
+
 def group_fold_leaves(which: int, items: List[int], thr: int) -> bool:
     """Flatten and Merge as leaf aggregators"""
     start()
@@ -329,7 +362,7 @@ def obligations(tier):
     for k0 in range(NKEY):
         for leaf in range(NLEAF):
             pre = 'len(items) <= %d' % L if leaf != 4 else 'len(items) <= %d and all(-1 <= x <= 2 for x in items)' % (2 if q else 3)
-            obs.append(Ob(group1, fixed={'k0': k0, 'leaf': leaf}, pre=pre, name='group1_k%d_l%d' % (k0, leaf)))
+            obs.append(Ob(group1, fixed={'k0': k0, 'leaf': leaf}, pre=pre, name='group1_k%d_l%d' % (k0, leaf), timeout=240 if leaf == 8 else None))
     dom = 2 if q else 3
     for k0 in range(NKEY):
         for k1 in range(NKEY):
@@ -360,6 +393,8 @@ def obligations(tier):
         for leaf in ((0, 1, 5) if q else (0, 1, 3, 5, 6)):
             obs.append(Ob(group_nested, fixed={'k0': k0, 'leaf': leaf}, pre='len(items) <= %d' % (3 if q else 5),
                           name='group_nested_k%d_l%d' % (k0, leaf)))
+    for w in range(3):
+        obs.append(Ob(group_nested_agg, fixed={'which': w}, pre='len(rows) <= 3', name='group_nested_agg_%d' % w))
     for w in range(2):
         obs.append(Ob(group_fold_leaves, fixed={'which': w}, pre='len(items) <= %d' % L, name='group_fold_leaves_%d' % w))
     obs.append(Ob(group1, fixed={'k0': 0, 'leaf': 2}, pre='len(items) <= 3', twin='two_buckets', name='group1_k0_l2'))
